@@ -13,6 +13,8 @@ CONSTANTS
   Times <- McTimes
   QStr <- McQStr
   BadJs <- McBadJs
+  Acts <- McActs
+  CondCodes <- McCondCodes
 VIEW View
 INVARIANTS NeverSeenAfter RefusalHarmless CascadeExact
 CHECK_DEADLOCK FALSE
